@@ -47,7 +47,7 @@ EXPECTED_SHAPE = {
 EXPECTED_DEPTH = {
     "quick": [((0,), False), ((1,), False), ((1,), False), ((1,), False), ((1,), False), ((1,), False), ((1,), False), ((1,), False)],
     "init": [((0,), False), ((1,), False), ((1,), False), ((1,), False), ((1,), False), ((1,), False), ((0, 1), True), ((0, 1), True)],
-    "make": [((1,), False), ((1,), False), ((2,), False), ((2,), False), ((2,), False), ((1,), False), ((1,), False)],
+    "make": [((1,), False), ((1,), False), ((1, 2), False), ((1, 2), False), ((1, 2), False), ((1,), False), ((1,), False)],
 }
 
 
@@ -60,9 +60,43 @@ def dotted(n):
     return None
 
 
+CACHE_VAR = {"name": None}
+
+
 def is_cache_name(n):
-    """the expression names the cache file (variable db_cache_file_name)"""
-    return isinstance(n, ast.Name) and n.id == "db_cache_file_name"
+    """the expression names the cache file: the local variable that the routine passes to open()"""
+    return isinstance(n, ast.Name) and n.id == CACHE_VAR["name"]
+
+
+def find_cache_var(fn):
+    """the one local name given to every open() of the routine (the cache file path)"""
+    names = set()
+    for n in ast.walk(fn):
+        if isinstance(n, ast.Call) and dotted(n.func) == "open":
+            if not (n.args and isinstance(n.args[0], ast.Name)):
+                raise Untranslatable(f"line {n.lineno}: open() of a computed path")
+            names.add(n.args[0].id)
+    locks = [n for n in ast.walk(fn) if isinstance(n, ast.Call) and dotted(n.func) == "FileLock"]
+    for n in locks:
+        a = n.args[0] if n.args else None
+        if isinstance(a, ast.BinOp) and isinstance(a.left, ast.Name):
+            names.add(a.left.id)
+    if len(names) != 1:
+        raise Untranslatable(f"routine {fn.name}: cannot identify the cache file variable ({sorted(names)})")
+    return names.pop()
+
+
+def find_loaded_var(fn):
+    """the local name bound to the result of pickle.load"""
+    names = set()
+    for n in ast.walk(fn):
+        if isinstance(n, ast.Assign) and isinstance(n.value, ast.Call) and dotted(n.value.func) == "pickle.load":
+            if len(n.targets) != 1 or not isinstance(n.targets[0], ast.Name):
+                raise Untranslatable(f"line {n.lineno}: pickle.load result bound to a pattern")
+            names.add(n.targets[0].id)
+    if len(names) != 1:
+        raise Untranslatable(f"routine {fn.name}: cannot identify the variable holding the unpickled object ({sorted(names)})")
+    return names.pop()
 
 
 def is_lock_ctx(item):
@@ -96,6 +130,7 @@ class SiteVisitor:
 
     def run(self, fn, routine):
         self.routine = routine
+        CACHE_VAR["name"] = find_cache_var(fn)
         for st in fn.body:
             self.stmt(st, locked=False, chain=[], in_handler=False)
 
@@ -279,8 +314,9 @@ def regen():
         vis.run(fns[q], short)
     sites = vis.sites
     for short in ("quick", "init", "make"):
-        shape = [s["kind"] for s in sites if s["routine"] == short]
-        if shape != EXPECTED_SHAPE[short]:
+        shape = [s["kind"] for s in sites if s["routine"] == short and s["kind"] != K_LOCK]
+        nlocks = len([s for s in sites if s["routine"] == short and s["kind"] == K_LOCK])
+        if shape != [k for k in EXPECTED_SHAPE[short] if k != K_LOCK] or nlocks > EXPECTED_SHAPE[short].count(K_LOCK):
             raise Untranslatable(f"shape of routine '{short}' changed: operations {[KNAME[k] for k in shape]} "
                                  f"(the model was written for {[KNAME[k] for k in EXPECTED_SHAPE[short]]})")
     # the quick-info routine must return the loaded object only under `db_hash == loaded_db.db_hash`
@@ -338,7 +374,15 @@ def regen():
         out.append(f"Definition {name} : bool := {str(bool(s[field])).lower()}.")
 
     def chain(name, s):
-        out.append(f"Definition {name} : list (list N) := {chain_term(s)}.")
+        out.append(f"Definition {name} : list (list N) := {chain_term(s) if s is not None else '[]'}.")
+
+    def lock_site(routine, for_kind):
+        """the FileLock statement that encloses the (first) operation of the given kind, or None"""
+        ops = [x for x in sites if x["routine"] == routine and x["kind"] == for_kind]
+        if not ops or not ops[0]["locked"]:
+            return None
+        before = [x for x in sites if x["routine"] == routine and x["kind"] == K_LOCK and x["line"] <= ops[0]["line"]]
+        return before[-1] if before else None
 
     def exn_of(name, s):
         out.append(f"Definition {name} : N := {hid(s['extra'], s['line'])}.")
@@ -346,15 +390,15 @@ def regen():
     # quick-info routine
     flag("quick_read_locked", site("quick", K_LOAD)); flag("quick_open_r_locked", site("quick", K_OPEN_R))
     chain("quick_read_guard", site("quick", K_LOAD)); chain("quick_open_r_guard", site("quick", K_OPEN_R))
-    chain("quick_lock_r_guard", site("quick", K_LOCK, 0)); chain("quick_typecheck_guard", site("quick", K_TYPECHECK))
+    chain("quick_lock_r_guard", lock_site("quick", K_LOAD)); chain("quick_typecheck_guard", site("quick", K_TYPECHECK))
     exn_of("quick_typecheck_raises", site("quick", K_TYPECHECK))
     flag("quick_write_locked", site("quick", K_DUMP)); flag("quick_open_w_locked", site("quick", K_OPEN_W))
     chain("quick_write_guard", site("quick", K_DUMP)); chain("quick_open_w_guard", site("quick", K_OPEN_W))
-    chain("quick_lock_w_guard", site("quick", K_LOCK, 1))
+    chain("quick_lock_w_guard", lock_site("quick", K_DUMP))
     # DatabaseData.__init__
     flag("init_read_locked", site("init", K_LOAD)); flag("init_open_r_locked", site("init", K_OPEN_R))
     chain("init_read_guard", site("init", K_LOAD)); chain("init_open_r_guard", site("init", K_OPEN_R))
-    chain("init_lock_guard", site("init", K_LOCK)); chain("init_typecheck_guard", site("init", K_TYPECHECK))
+    chain("init_lock_guard", lock_site("init", K_LOAD)); chain("init_typecheck_guard", site("init", K_TYPECHECK))
     exn_of("init_typecheck_raises", site("init", K_TYPECHECK))
     flag("init_stale_remove_locked", site("init", K_REMOVE, 0)); chain("init_stale_remove_guard", site("init", K_REMOVE, 0))
     flag("init_stale_remove_in_handler", site("init", K_REMOVE, 0), "in_handler")
@@ -366,7 +410,7 @@ def regen():
     flag("make_open_r_locked", site("make", K_OPEN_R))
     chain("make_read_guard", site("make", K_LOAD)); chain("make_open_r_guard", site("make", K_OPEN_R))
     chain("make_typecheck_guard", site("make", K_TYPECHECK)); exn_of("make_typecheck_raises", site("make", K_TYPECHECK))
-    chain("make_lock_guard", site("make", K_LOCK))
+    chain("make_lock_guard", lock_site("make", K_DUMP))
     flag("make_write_locked", site("make", K_DUMP)); flag("make_open_w_locked", site("make", K_OPEN_W))
     chain("make_write_guard", site("make", K_DUMP)); chain("make_open_w_guard", site("make", K_OPEN_W))
 
@@ -402,23 +446,27 @@ def regen():
     out.append(f"Definition rebuild_complete_load : bool := {str(other_calls[0]).lower()}.")
 
     def has_hash_compare(fn, op, loaded):
+        """`if <name> <op> <loaded>.db_hash:` (either order) -> the If node"""
         for n in ast.walk(fn):
             if isinstance(n, ast.If) and isinstance(n.test, ast.Compare) and len(n.test.ops) == 1 \
                     and isinstance(n.test.ops[0], op):
-                names = sorted(str(dotted(x)) for x in [n.test.left] + n.test.comparators)
-                if names == sorted(["db_hash", loaded + ".db_hash"]):
+                sides = [n.test.left] + n.test.comparators
+                ds = [dotted(x) for x in sides]
+                if loaded + ".db_hash" in ds and any(isinstance(x, ast.Name) for x in sides):
                     return n
         return None
-    qh = has_hash_compare(qfn, ast.Eq, "loaded_db")
-    returns = [n for n in ast.walk(qfn) if isinstance(n, ast.Return) and dotted(n.value) == "loaded_db"]
-    guarded_ret = qh is not None and all(any(r is x for x in ast.walk(qh) if True) and
-                                         any(r is x for b in qh.body for x in ast.walk(b)) for r in returns)
+    qloaded = find_loaded_var(qfn)
+    qh = has_hash_compare(qfn, ast.Eq, qloaded)
+    returns = [n for n in ast.walk(qfn) if isinstance(n, ast.Return) and dotted(n.value) == qloaded]
     if not returns:
         raise Untranslatable("_get_quick_info_db never returns the loaded cache")
+    inside = set(id(x) for b in (qh.body if qh is not None else []) for x in ast.walk(b))
+    guarded_ret = qh is not None and all(id(r) in inside for r in returns)
     out.append(f"Definition quick_hash_checked : bool := {str(bool(guarded_ret)).lower()}.")
     ifn = fns["Database.DatabaseData.__init__"]
-    ih = has_hash_compare(ifn, ast.NotEq, "loaded_db_data")
-    ih_ok = ih is not None and any(isinstance(b, ast.Assign) and dotted(b.targets[0]) == "loaded_db_data"
+    iloaded = find_loaded_var(ifn)
+    ih = has_hash_compare(ifn, ast.NotEq, iloaded)
+    ih_ok = ih is not None and any(isinstance(b, ast.Assign) and dotted(b.targets[0]) == iloaded
                                    and isinstance(b.value, ast.Constant) and b.value.value is None for b in ih.body)
     out.append(f"Definition init_hash_checked : bool := {str(bool(ih_ok)).lower()}.")
     # the cache is read by __init__ whenever the cache is enabled
@@ -442,11 +490,13 @@ def regen():
     # the two removes of __init__ are modelled as unlocked single system calls
     if site("init", K_REMOVE, 0)["locked"] or site("init", K_REMOVE, 1)["locked"]:
         raise Untranslatable("os.remove of the data cache moved under the lock: model must be revisited")
-    for s in sites:
-        want = EXPECTED_DEPTH[s["routine"]][[x for x in sites if x["routine"] == s["routine"]].index(s)]
-        if len(s["chain"]) not in want[0] or s["in_handler"] != want[1]:
-            raise Untranslatable(f"line {s['line']}: try/except nesting around {KNAME[s['kind']]} in routine '{s['routine']}' changed "
-                                 f"(depth {len(s['chain'])}, in except body: {s['in_handler']})")
+    for short in ("quick", "init", "make"):
+        exp = [(k, d) for k, d in zip(EXPECTED_SHAPE[short], EXPECTED_DEPTH[short]) if k != K_LOCK]
+        got = [x for x in sites if x["routine"] == short and x["kind"] != K_LOCK]
+        for x, (k, want) in zip(got, exp):
+            if len(x["chain"]) not in want[0] or x["in_handler"] != want[1]:
+                raise Untranslatable(f"line {x['line']}: try/except nesting around {KNAME[x['kind']]} in routine '{short}' changed "
+                                     f"(depth {len(x['chain'])}, in except body: {x['in_handler']})")
     global _LAST
     _LAST = {"ident": ident, "classes": classes, "sites": sites,
              "tuples": sorted({tuple(t) for x in sites for t in x["chain"]})}
